@@ -197,7 +197,7 @@ impl Prop for C06 {
                 Some(Forced::Store(..)) => 3,
                 Some(Forced::Erase(..)) => 7,
                 Some(Forced::Dim(..)) => 6,
-                None => rng.usize(13),
+                None => rng.usize(14),
             };
             if choice == 12 {
                 // a chain on one array, with no other array access in between: store an element, ERASE, DIM with
@@ -384,6 +384,10 @@ impl Prop for C06 {
                         format!("SWAP {},{}", n1, n2)
                     }
                 }
+                13 => {
+                    // a program line typed or removed in between: the listing is not the variables' business
+                    rng.pick(&["10 REM", "10", "20 PRINT 1", "20", "65529 A=1", "65529", "5 DEFSTR A-Z", "5"]).to_string()
+                }
                 _ => "CLEAR".to_string(),
             };
             if stmt == "CLEAR" {
@@ -408,7 +412,7 @@ impl Prop for C06 {
                 saw_error = true;
             }
             let kind = stmt.split(|c: char| c == ' ' || c == '=' || c == '(').next().unwrap_or("").to_string();
-            let kind = if stmt.starts_with("DIM") || stmt.starts_with("ERASE") || stmt.starts_with("SWAP") || stmt.starts_with("DEF") || stmt == "CLEAR" { kind } else if stmt.contains('(') { "array-store".to_string() } else { "scalar-store".to_string() };
+            let kind = if stmt.starts_with(|c: char| c.is_ascii_digit()) { "line-edit".to_string() } else if stmt.starts_with("DIM") || stmt.starts_with("ERASE") || stmt.starts_with("SWAP") || stmt.starts_with("DEF") || stmt == "CLEAR" { kind } else if stmt.contains('(') { "array-store".to_string() } else { "scalar-store".to_string() };
             if !any_err_ok {
                 match (expect_err, &err) {
                     (Some(w), Some(g)) if w == g => {}
